@@ -49,7 +49,7 @@ ASSUMPTIONS = [
     "the conservation contract reads dataBuffer/offset/_tempDataLen (internal names, sanctioned by DESIGN C14)",
 ]
 SHARDS = {"quick": 4, "thorough": 16}
-FLOORS = {"doWrite_calls": 2000, "partial_accepts": 300, "zero_accepts": 100, "bytes_accepted": 1000000, "orderly_closes": 50,
+FLOORS = {"doWrite_calls": 5000, "partial_accepts": 300, "zero_accepts": 100, "bytes_accepted": 1000000, "orderly_closes": 50,
           "pause_checks": 100, "drain_resume_checks": 100, "halfclose_checks": 20, "closes_deferred_for_pull_producer": 10,
           "closes_with_data_written_before_loseconnection": 30, "histories_with_big_buffer": 20}
 READY = True
@@ -506,7 +506,7 @@ def run_case(ctx, case):
 
 
 def run(ctx):
-    for i in ctx.cases(2000, 100000):
+    for i in ctx.cases(6000, 100000):
         run_case(ctx, i)
 
 
